@@ -26,6 +26,9 @@ var schedSwitchBound = 0
 // scenarioPB overrides the preemption bound for single scenarios (by name).
 var scenarioPB = map[string]int{}
 
+// scenarioDB overrides the deviation bound for single scenarios (by name).
+var scenarioDB = map[string]int{}
+
 type schedTotals struct {
 	Executions, Points, Divergences, Horizons int
 	Accesses, MaxThreads                      int
@@ -51,7 +54,11 @@ func exploreScenariosShard(rep *Reporter, scs []schedScenario, maxPB, maxDB int,
 		if b, ok := scenarioPB[sc.Name]; ok {
 			scPB = b
 		}
-		st := verifrt.Explore(verifrt.ExploreOpts{PreemptionBound: scPB, DeviationBound: maxDB, MaxSteps: maxSteps, Deadline: deadline, Shard: shard, Shards: shards, SwitchBound: schedSwitchBound}, sc.Sc, func(x *verifrt.Execution) {
+		scDB := maxDB
+		if b, ok := scenarioDB[sc.Name]; ok {
+			scDB = b
+		}
+		st := verifrt.Explore(verifrt.ExploreOpts{PreemptionBound: scPB, DeviationBound: scDB, MaxSteps: maxSteps, Deadline: deadline, Shard: shard, Shards: shards, SwitchBound: schedSwitchBound}, sc.Sc, func(x *verifrt.Execution) {
 			for _, v := range x.Violations {
 				sig := sigOf(sc.Name, v, x)
 				if seenViol[sig] && rep.Count() > 2000 {
